@@ -373,7 +373,8 @@ def _worker(args):
                         x["after_flat"][names.index(nm)] = v
             pseudo = {"fields": [{"name": n, "rand": True, "w": 8, "s": False} for n in names], "blocks": [], "calls": [{}]}
             c = {"call": {}, "before": before_flat, "after": x["after_flat"], "outcome": rec["outcome"], "exc": rec["exc"],
-                 "obs": x["obs"], "uncon": rec["uncon"], "bounds": rec["bounds"]}
+                 "obs": x["obs"], "uncon": rec["uncon"], "bounds": rec["bounds"],
+                 "order_names": [(names[b_], names[a_]) for b_, a_ in x["req"].get("order", []) if b_ < len(names) and a_ < len(names)]}
             corr, orc, st = solvecheck.compare_call(S, pseudo, 0, c, m["call"])
             for f in corr + orc:
                 f["case"] = ccase
